@@ -260,3 +260,15 @@ func VerifC01Cross() {
 		vrt.Cover("value")
 	}
 }
+
+// VerifC01Nest: the statement nests of VerifC05Nest against the reference evaluator (value,
+// output, error class), followed by a read of the global the leaves assign.
+func VerifC01Nest() {
+	p := NewPair()
+	st := p.G.StmtLean(vrt.Param("leandepth", 2), vrt.Param("narrow", 1) == 1)
+	prog, used := StmtEmbed(vrt.Choice("sctx", NStmtCtx), st)
+	vrt.Note("program", Src(prog))
+	p.Step(prog, used, "program")
+	p.Step(blk(nm("x")), true, "next-statement")
+	vrt.Cover("done")
+}
